@@ -1,6 +1,7 @@
 """Property -> units / harnesses / stated assumptions.  Units are /verif/units/<name>.vrs."""
 
 UNIT_NOTES = {
+    "rawtx": "C08 what a signed raw transaction turns into: TxInfo::{from_inscription, from_raw_transaction, from_saved_transaction, to_address_optional} and get_info_from_raw_tx on their real bodies (alloy RLP decoding, signature recovery and keccak as uninterpreted functions of their inputs)",
     "codec_trace": "C14 record codec of the recursive TraceED (enc / dec read off the real impls, N37); Vec<TraceED> is an assumed leaf here",
     "dbslot": "C09 engine database slot: the three closures that run the EVM (read_contract, read_contract_multi, add_tx_to_block) lifted into functions; mem::take ... mem::swap puts the database back on every exit path",
     "codec": "L1 codecs against injected enc/dec: real impl bodies of u8, Option<T>, (T,U), Vec<T> (=> codec_ok / codec_law lemmas); BlockHistoryCacheData<V> encode/decode bodies with map level round-trip lemmas; record codecs AccountInfoED, LogED, TxED, TxReceiptED with enc / dec read off the real impls on every run (N37) and the generated law lemmas prop_record_<S>",
@@ -133,9 +134,9 @@ PROPS["C06"] = {
     "assumptions": ["N29: constructors reduced to their index arguments", "generate_block / generate_raw_block not under contract"],
 }
 PROPS["C08"] = {
-    "units": ["engine", "dbfacade"],
+    "units": ["engine", "dbfacade", "rawtx"],
     "kani": [],
-    "level_text": "Proof on the real add_raw_tx_to_block control skeleton: a transaction is parked only with account_nonce < nonce < account_nonce + 10, executed first only with nonce == account nonce (or none), every drained transaction is younger than 10 blocks and receives transaction index = index of the call + receipts produced so far (loop invariant), nonces advance by one per receipt and every drained transaction carries exactly the account's next nonce (site precondition over what the pool lookup returned); drain completeness over a ghost model of the pending pool (map (signer, nonce) -> parked transaction, answered by the lookup site, updated at the removal site): whenever the call returns receipts, nothing is left waiting at the signer's next nonce - the loop ran every consecutive successor or dropped an expired one - and the entry removed is the one that was looked up; clear_txpool drops a parked transaction iff it has no arrival block or arrived >= 10 blocks ago and leaves every other one untouched.",
+    "level_text": "Proof on the real get_info_from_raw_tx (an undecodable transaction is rejected, one whose chain id is absent or not the configured one is ignored, otherwise the result is exactly the decoded transaction: signer = address recovered from the signing hash, nonce = signed nonce, hash = keccak of the raw bytes or the signing hash as the fork schedule selects) and the three TxInfo constructors; on the real add_raw_tx_to_block control skeleton: a transaction is parked only with account_nonce < nonce < account_nonce + 10, executed first only with nonce == account nonce (or none), every drained transaction is younger than 10 blocks and receives transaction index = index of the call + receipts produced so far (loop invariant), nonces advance by one per receipt and every drained transaction carries exactly the account's next nonce (site precondition over what the pool lookup returned); drain completeness over a ghost model of the pending pool (map (signer, nonce) -> parked transaction, answered by the lookup site, updated at the removal site): whenever the call returns receipts, nothing is left waiting at the signer's next nonce - the loop ran every consecutive successor or dropped an expired one - and the entry removed is the one that was looked up; clear_txpool drops a parked transaction iff it has no arrival block or arrived >= 10 blocks ago and leaves every other one untouched.",
     "level_note": COMMON_TRUST + "Closures are guarded sites (N10); revm's own nonce check, signature recovery, chain-id filter (alloy) and txpool_content are outside. Termination of the drain loop is not proved (it ends when the pool has no next nonce).",
     "assumptions": ["nonces, transaction indexes and arrival blocks are < 2^63", "drain-loop termination not proved", "pool invariant assumed at entry: nothing is parked at or beyond account nonce + 10 (parking precondition + monotone account nonces)", "a parked transaction is stored under its own signer and nonce (pool lookup shim)"],
 }
